@@ -367,3 +367,51 @@ func derivesOnlyFromField(v ssa.Value, field string, depth int, seen map[ssa.Val
 	}
 	return false
 }
+
+// chanSendSite: a place where a value is sent on a channel, lifted to the caller when the channel is a parameter of
+// a same-package helper (signalReady(p.sendReadyChan) counts as a send on p.sendReadyChan at the call).
+type chanSendSite struct {
+	Fn   *ssa.Function
+	At   ssa.Instruction
+	Chan ssa.Value
+}
+
+func liftedSendSites(fns []*ssa.Function) []chanSendSite {
+	var out []chanSendSite
+	var lift func(fn *ssa.Function, at ssa.Instruction, ch ssa.Value, depth int)
+	lift = func(fn *ssa.Function, at ssa.Instruction, ch ssa.Value, depth int) {
+		if p, ok := ch.(*ssa.Parameter); ok && depth > 0 && fn.Parent() == nil {
+			idx := -1
+			for i, q := range fn.Params {
+				if q == p {
+					idx = i
+				}
+			}
+			callers := callersInPkg(fn)
+			if idx >= 0 && len(callers) > 0 {
+				for _, ci := range callers {
+					if idx < len(ci.Common().Args) {
+						lift(ci.Parent(), ci, ci.Common().Args[idx], depth-1)
+					}
+				}
+				return
+			}
+		}
+		out = append(out, chanSendSite{fn, at, ch})
+	}
+	for _, fn := range fns {
+		for _, in := range fnInstrs(fn) {
+			switch x := in.(type) {
+			case *ssa.Send:
+				lift(fn, in, x.Chan, 3)
+			case *ssa.Select:
+				for _, st := range x.States {
+					if st.Send != nil {
+						lift(fn, in, st.Chan, 3)
+					}
+				}
+			}
+		}
+	}
+	return out
+}
